@@ -11,7 +11,7 @@ ST_TRUSTED = [
     "std `f64::max`, `<[T]>::reverse`: assume_specification (uninterpreted result / sequence reverse)",
     "T-helpers with assumed std meaning: vx_concat2 ([a,b].concat()), vx_hashset_singleton ([k].into_iter().collect()), vx_hashset_extend_cloned (extend(iter().cloned()) = union), vx_hashset_into_vec (into_iter().collect() lists each element once), vx_usize_to_f64 / vx_f64_add (uninterpreted floats)",
     "N7: Iterator::sum over u64 = left fold with + of the collected items; enumerate = pairing with 0-based index (helpers themselves verified)",
-    "PartialEq::eq for StateTreeSkeleton: external_body, contract `r == shape_eq` assumed (std Vec<Box<Self>> == recursion is rejected by Verus' trait-cycle check)",
+    "PartialEq::eq for StateTreeSkeleton: the impl is external_body (std Vec<Box<Self>> == recursion is rejected by Verus' trait-cycle check), but its body is cut a second time and VERIFIED as the free function skeleton_eq (`r == shape_eq`), with `Vec<Box<Self>> == Vec<Box<Self>>` desugared by its std meaning (equal lengths and element-wise == through the boxes: verified helper vx_vec_box_eq)",
     "axiom_vec_box_len: a Vec of 8-byte Boxes has fewer than usize::MAX elements (allocation limit isize::MAX bytes)",
     "N8: the crate's type parameter T: SizedType is instantiated with one opaque type whose word_size is an uninterpreted function of the value (parametricity)",
     "vstd specifications of Vec, slice, Option, HashSet::new/len/is_empty, iterator adapters (iter, map, take, zip, all, find, collect)",
@@ -21,7 +21,7 @@ PROPS = {
     "C08": {
         "verus_units": ["state_tree"],
         "replay": "state_tree",
-        "floor": {"obligations": 55},
+        "floor": {"obligations": 58},
         "trusted_base": ST_TRUSTED + ["update_state_storage: the error type Box<dyn std::error::Error> is erased to () (Verus has no dyn Error; the function never constructs an error)"],
         "assumptions": [
             "precondition `fits`: the mathematical size of each layout is <= usize::MAX (a layout that does not fit cannot be allocated)",
